@@ -392,6 +392,10 @@ class SchemaGroup(SchemaSet):
         tag_order = {f.tag: i for i, f in enumerate(self.members.values())}
         tag_fields = {f.tag: f for f in self.members.values()}
 
+        if not groups:
+            # NumInGroup is positive, group without items is not sent at all
+            raise FIXMessageError(f"fixmessage={groups} no items in group {self}")
+
         for fmsg in groups:
             has_first_tag = False
             prev_tag = -1
@@ -714,8 +718,8 @@ class FIXSchema:
             self._validate_header(msg)
 
         for tag, val in msg.tags.items():
-            if tag == "10":
-                # TODO: check the checksum
+            if tag == "10" and tag not in self._tag2field:
+                # CheckSum of a decoded message, dictionary has no trailer
                 continue
             if tag not in self._tag2field:
                 raise FIXMessageError(f"msg tag={tag} not in schema")
@@ -728,8 +732,18 @@ class FIXSchema:
                     if field in self._header
                     else self._trailer[field]
                 )
-                if isinstance(fschema, SchemaField) and not msg.is_group(tag):
+                if isinstance(fschema, SchemaField):
+                    if msg.is_group(tag):
+                        raise FIXMessageError(
+                            f"msg tag={tag} val={val} must be a tag, got group"
+                        )
                     fschema.validate_value(val)
+                elif isinstance(fschema, SchemaGroup):
+                    if not msg.is_group(tag):
+                        raise FIXMessageError(
+                            f"msg tag={tag} val={val} must be a group"
+                        )
+                    fschema.validate_group(msg.get_group_list(tag))
                 continue
 
             if field not in schema_msg:
